@@ -310,7 +310,7 @@ def run(M, rec, tier, seed, k, n):
         return
     g = G.NetGen(rng)
     sh = W.shapes_cycle()
-    for it in range(90 if tier == "quick" else 600):
+    for it in range(90 if tier == "quick" else 1000):
         shape = next(sh)
         if it % 4 == 0:
             desc = collision_network(g, rng)
